@@ -409,6 +409,83 @@ fn prom(ctx: &Ctx, res: &mut PartResult, depth: usize, mask_i: usize, global_lab
     res.sample(json!({"mask": mask_name, "ops": "Inc, Render, Advance(1001), Render, Inc, Render"}));
 }
 
+/// Several series of ONE metric name (label sets a, b, c) under the exporter: all are written at t=0, every subset U of
+/// them is written again at T/2, renders follow at T/2, T+1 and 2T+2. At T+1 exactly the series in U are shown (with both
+/// writes), the others have disappeared together; at 2T+2 all are gone; a series written again afterwards starts from
+/// zero. For counters, gauges and histograms (a histogram series also has an aggregated distribution to forget).
+fn same_name_series(res: &mut PartResult) {
+    res.engine = "E3 subsets of same-name series x kinds through the Prometheus exporter under a mock clock".into();
+    let mut states = vseq::States::new();
+    let shards = ["a", "b", "c"];
+    for kind in 0..3usize {
+        for u in 0..8u8 {
+            res.executions += 1;
+            let (clock, mock) = Clock::mock();
+            let rec = PrometheusBuilder::new().idle_timeout(MetricKindMask::ALL, Some(Duration::from_nanos(T))).verif_build_with_clock(clock);
+            let h = rec.handle();
+            let write = |sh: &str| {
+                let key = Key::from_parts("m", vec![metrics::Label::new("shard", sh.to_string())]);
+                match kind {
+                    0 => rec.register_counter(&key, &META).increment(1),
+                    1 => rec.register_gauge(&key, &META).increment(1.0),
+                    _ => rec.register_histogram(&key, &META).record(1.0),
+                }
+            };
+            // per shard: the value shown (counter value / gauge value / histogram _count), None = absent
+            let shown = |text: &str| -> Result<BTreeMap<String, u64>, String> {
+                let fams = promtext::parse(text)?;
+                let mut m = BTreeMap::new();
+                for f in &fams {
+                    for sm in &f.samples {
+                        if kind == 2 && !sm.name.ends_with("_count") {
+                            continue;
+                        }
+                        if let Some(sh) = sm.label("shard") {
+                            m.insert(sh.to_string(), sm.value_f64() as u64);
+                        }
+                    }
+                }
+                Ok(m)
+            };
+            let cfg = json!({"same_name": [kind, u]});
+            let mut step = |at: &str, want: BTreeMap<String, u64>, res: &mut PartResult| {
+                res.transitions += 1;
+                match shown(&h.render()) {
+                    Err(e) => res.violation("malformed-exposition", format!("{}: {}", at, e), cfg.clone()),
+                    Ok(got) => {
+                        states.add(&(kind, format!("{:?}", got)));
+                        if got != want {
+                            let sig = if got.len() > want.len() { "idle-metric-not-dropped" } else if got.len() < want.len() { "metric-dropped-before-idle-timeout" } else { "kept-metric-lost-its-value" };
+                            res.violation(sig, format!("three {} series m{{shard=a|b|c}} written at t=0, the subset {:?} again at T/2; render {}: shows {:?}, expected {:?}", ["counter", "gauge", "histogram"][kind], shards.iter().enumerate().filter(|(i, _)| u & (1 << i) != 0).map(|(_, s)| *s).collect::<Vec<_>>(), at, got, want), cfg.clone());
+                        }
+                    }
+                }
+            };
+            for sh in shards {
+                write(sh);
+            }
+            step("at t=0", shards.iter().map(|s| (s.to_string(), 1)).collect(), res);
+            mock.increment(T / 2);
+            for (i, sh) in shards.iter().enumerate() {
+                if u & (1 << i) != 0 {
+                    write(sh);
+                }
+            }
+            step("at T/2", shards.iter().enumerate().map(|(i, s)| (s.to_string(), if u & (1 << i) != 0 { 2 } else { 1 })).collect(), res);
+            mock.increment(T / 2 + 1);
+            step("at T+1", shards.iter().enumerate().filter(|(i, _)| u & (1 << i) != 0).map(|(_, s)| (s.to_string(), 2)).collect(), res);
+            mock.increment(T + 1);
+            step("at 2T+2", BTreeMap::new(), res);
+            // a series written again starts from zero
+            write("b");
+            step("after b was written again", [("b".to_string(), 1u64)].into_iter().collect(), res);
+        }
+    }
+    res.states = states.len();
+    res.distinct_outcomes = states.len();
+    res.sample(json!({"series": "m{shard=a}, m{shard=b}, m{shard=c}", "rewritten_at_T/2": ["b"], "expected_at_T+1": "only b"}));
+}
+
 // ------------------------------------------------------------------ E1: an update racing an observation
 struct ES {
     rec: metrics_exporter_prometheus::PrometheusRecorder,
@@ -518,6 +595,7 @@ fn parts(ctx: &Ctx) -> Vec<PartSpec> {
         v.push(PartSpec::new(&format!("direct-d{}-mask{}-timeout-{}-ticks", d, mi, ticks), json!({"depth": d, "mask": mi, "timeout": true, "ticks": ticks})).budget(if ctx.quick() { 150.0 } else { 2400.0 }));
     }
     v.push(PartSpec::new("prometheus-mask3-timeout-withdrawn", json!({"prom": true, "mask": 3, "withdrawn": true, "depth": if ctx.quick() { 5 } else { 7 }})).budget(if ctx.quick() { 150.0 } else { 2400.0 }));
+    v.push(PartSpec::new("prometheus-same-name-series", json!({"same_name": true})));
     v.push(PartSpec::new("prometheus-mask3-global-label", json!({"prom": true, "mask": 3, "global": true, "depth": if ctx.quick() { 5 } else { 7 }})).budget(if ctx.quick() { 150.0 } else { 2400.0 }));
     for (ki, kn) in ["counter", "gauge", "histogram"].iter().enumerate() {
         let pb = if ctx.quick() { 2 } else { 4 };
@@ -533,6 +611,8 @@ fn run(ctx: &Ctx, spec: &PartSpec) -> PartResult {
     if let Some(pb) = spec.arg["e1"].as_u64() {
         let kind = [K::C, K::G, K::H][spec.arg["kind"].as_u64().unwrap_or(0) as usize];
         e1_update_vs_observe(ctx, &mut res, pb as usize, kind);
+    } else if spec.arg["same_name"].as_bool() == Some(true) {
+        same_name_series(&mut res);
     } else if spec.arg["prom"].as_bool() == Some(true) {
         WITHDRAWN.store(spec.arg["withdrawn"].as_bool().unwrap_or(false), std::sync::atomic::Ordering::Relaxed);
         prom(ctx, &mut res, depth, mask, spec.arg["global"].as_bool().unwrap_or(false));
@@ -547,7 +627,7 @@ fn main() {
     driver::main(CheckDef {
         prop: "C12",
         level: "model_checking",
-        rule: "direct: every sequence of the stated depth over 13 operations (update of 4 metrics incl. the same key under three kinds and a gauge update leaving the value unchanged; clock advance by 1, T-1, T, T+1 ticks; observe one metric; observe all) on the real Recency + Registry<Key, GenerationalAtomicStorage> under quanta's mock clock, for masks {NONE, COUNTER, GAUGE|HISTOGRAM, ALL} with the timeout and ALL without, plus timeouts of zero and one tick; via Prometheus: every sequence over {inc, set, record, advance 1/T/T+1, render} through verif_build_with_clock and the strict parser (the builder's idle_timeout option given twice: the later call counts, and a later None withdraws the timeout); reference per (kind,key): (generation, time of the last observation that saw a change); E1: every SC interleaving (pb-bounded) of one update (counter increment / gauge increment / histogram record through the exporter's generational handles) with an observation (clock advance + render) between two sequential observations: the racing update is reported before the metric can be dropped as idle; distinct = distinct reference states; a registration that writes nothing (get-or-create with an empty operation) for a counter and a histogram is part of the alphabet",
+        rule: "direct: every sequence of the stated depth over 13 operations (update of 4 metrics incl. the same key under three kinds and a gauge update leaving the value unchanged; clock advance by 1, T-1, T, T+1 ticks; observe one metric; observe all) on the real Recency + Registry<Key, GenerationalAtomicStorage> under quanta's mock clock, for masks {NONE, COUNTER, GAUGE|HISTOGRAM, ALL} with the timeout and ALL without, plus timeouts of zero and one tick; via Prometheus: every sequence over {inc, set, record, advance 1/T/T+1, render} through verif_build_with_clock and the strict parser (the builder's idle_timeout option given twice: the later call counts, and a later None withdraws the timeout); three series of one name (label sets a, b, c) x every subset written again at T/2 x 3 kinds through the exporter: exactly the rewritten ones survive T+1, all are gone at 2T+2, a series written again starts from zero; reference per (kind,key): (generation, time of the last observation that saw a change); E1: every SC interleaving (pb-bounded) of one update (counter increment / gauge increment / histogram record through the exporter's generational handles) with an observation (clock advance + render) between two sequential observations: the racing update is reported before the metric can be dropped as idle; distinct = distinct reference states; a registration that writes nothing (get-or-create with an empty operation) for a counter and a histogram is part of the alphabet",
         assumptions: &["time only advances through the mock clock", "the direct part observes a metric the way the exporters do: look the handle up, read its generation, ask should_store_*"],
         parts,
         run,
